@@ -289,6 +289,8 @@ impl FeoxStore {
             })
             .ok_or(FeoxError::KeyNotFound)??;
 
+        #[cfg(feoxdb_verif)]
+        crate::verif::sched_point("update_ttl_before_enqueue", 0, 0);
         if !cache_guarded {
             self.remove_cached(key, &old_record);
         }
@@ -308,6 +310,8 @@ impl FeoxStore {
         let predecessor = Arc::clone(record);
         #[cfg(test)]
         crate::test_hooks::pause_at(crate::test_hooks::AFTER_TTL_DEFERRED_SOURCE);
+        #[cfg(feoxdb_verif)]
+        crate::verif::sched_point("after_ttl_deferred_source", 0, 0);
         TtlReplacementValue::Deferred(predecessor)
     }
 
